@@ -937,6 +937,7 @@ class RpcServer:
                 except ProtocolVersionError as exc:
                     err_schema = info.result_schema if info.method_type == MethodType.UNARY else _EMPTY_SCHEMA
                     _write_error_stream(transport.writer, err_schema, exc, server_id=self._server_id)
+                    self._drain_refused_stream_input(transport, info)
                     return
 
             # Request validation. Both steps are answered with a typed error
@@ -960,6 +961,7 @@ class RpcServer:
             except Exception as exc:
                 err_schema = info.result_schema if info.method_type == MethodType.UNARY else _EMPTY_SCHEMA
                 _write_error_stream(transport.writer, err_schema, exc, server_id=self._server_id)
+                self._drain_refused_stream_input(transport, info)
                 return
 
             # Determine the SHM segment for this call's data plane (resolving
@@ -1002,6 +1004,21 @@ class RpcServer:
             _current_request_metadata.reset(md_token)
             _current_call_stats.reset(stats_token)
             _current_request_id.reset(token)
+
+    def _drain_refused_stream_input(self, transport: RpcTransport, info: RpcMethodInfo) -> None:
+        """Consume the input stream of a headerless stream call that was refused before dispatch.
+
+        The client of a stream without a header reads nothing until its first
+        exchange, so it has already written (or will write, as a bare EOS from
+        ``close()``) its input stream when the refusal reaches it.  Left unread
+        that stream would be taken for the next request — the same hazard the
+        init-error path in :meth:`_serve_stream` guards against.  With a
+        header the client sees the refusal in the header phase and never opens
+        an input stream.
+        """
+        if info.method_type == MethodType.STREAM and info.header_type is None:
+            with contextlib.suppress(pa.ArrowInvalid, OSError, StopIteration):
+                _drain_stream(ValidatedReader(ipc.open_stream(transport.reader), self._ipc_validation))
 
     def _prepare_method_call(
         self, info: RpcMethodInfo, kwargs: dict[str, object]
